@@ -56,7 +56,7 @@ let text r = " " ^ pick r words ^ (if rbool r then "." else ":") ^ " "
 (* the model's prediction for a workload, and its JSON *)
 (* a later phase: (rewrites, the world after them, the goroutines of the phase); a rewrite names loader, search path,
    key and the new source; its modification time is 10 * (phase number) *)
-type phase = { rewrites : (int * int * string * M.sc_src) list; world : M.sc_world; pthreads : M.sc_call list list }
+type phase = { rewrites : (int * int * string * M.sc_src option) list; world : M.sc_world; pthreads : M.sc_call list list }
 
 let finish ?(phases = []) r ~id ~tier ~debug ~has_rel (w : M.sc_world) (threads : M.sc_call list list) =
   let nthreads = List.length threads in
@@ -115,21 +115,26 @@ let finish ?(phases = []) r ~id ~tier ~debug ~has_rel (w : M.sc_world) (threads 
        "regt", JL (List.map (fun (n, s) -> Ob [ "n", hx (sb n); "s", hx (pr_src s) ]) w.M.w_regt);
        "threads", JL (List.map2 (fun cs es -> JL (List.map2 jcall cs es)) threads results);
        "phases", JL (List.mapi (fun k (ph, rs) ->
-            Ob [ "rewrites", JL (List.map (fun (l, d, n, src) -> Ob [ "l", JI l; "d", JI d; "n", hx n; "s", hx (pr_src src) ]) ph.rewrites);
+            Ob [ "rewrites", JL (List.map (fun (l, d, n, src) ->
+                     match src with
+                     | Some src -> Ob [ "l", JI l; "d", JI d; "n", hx n; "s", hx (pr_src src) ]
+                     | None -> Ob [ "l", JI l; "d", JI d; "n", hx n; "del", JB true ]) ph.rewrites);
                  "mtime", JI (10 * (k + 1));
                  "threads", JL (List.map2 (fun cs es -> JL (List.map2 jcall cs es)) ph.pthreads rs) ]) (List.combine phases phase_results));
        "ncalls", JI ncalls; "nontrivial", JB (has_rel && nthreads >= 2); "model_schedule_dependent", JB !sched_dep;
        "reps", JI (if tier = "thorough" then 6 else 3) ]
 
-(* the world after rewriting files: (loader, search path, key, new source) with modification time mt *)
-let rewrite_world (w : M.sc_world) (rws : (int * int * string * M.sc_src) list) (mt : int) : M.sc_world =
+(* the world after rewriting files: (loader, search path, key, new source) with modification time mt; None = the
+   file is removed *)
+let rewrite_world (w : M.sc_world) (rws : (int * int * string * M.sc_src option) list) (mt : int) : M.sc_world =
   let z = if mt = 0 then M.Z0 else M.Zpos (pos_of_int mt) in
   { w with M.w_loaders = List.mapi (fun li (l : M.sc_loader) ->
       { l with M.ld_dirs = List.mapi (fun di dir ->
-          List.map (fun (k, f) ->
+          List.filter_map (fun (k, f) ->
             match List.find_opt (fun (l', d', n', _) -> l' = li && d' = di && n' = sb k) rws with
-            | Some (_, _, _, src) -> (k, { M.fl_src = src; fl_mtime = z })
-            | None -> (k, f)) dir) l.M.ld_dirs }) w.M.w_loaders }
+            | Some (_, _, _, Some src) -> Some (k, { M.fl_src = src; fl_mtime = z })
+            | Some (_, _, _, None) -> None
+            | None -> Some (k, f)) dir) l.M.ld_dirs }) w.M.w_loaders }
 
 let gen_workload r ~id ~tier =
   let ctr = ref 0 in
@@ -167,6 +172,9 @@ let gen_workload r ~id ~tier =
     ignore (add "lib" (rdir ()) (mk ~macros:[ (bs "m1", [ M.ScFText (bs "<i "); M.ScFVar (bs "p"); M.ScFText (bs ">") ]);
                                                (bs "m2", [ M.ScFText (bs "["); M.ScFAttr (bs "p", bs "Name"); M.ScFText (bs "]") ]) ] []))
   done;
+  (* a library whose own top level fails when it is rendered for its macros (it includes a template nobody has) *)
+  ignore (add "badlib" (rdir ()) (mk ~macros:[ (bs "m1", [ M.ScFText (bs "<b "); M.ScFVar (bs "p"); M.ScFText (bs ">") ]) ]
+                                    [ M.ScItFlat (M.ScFText (bs "lib-top")); M.ScItInclude (bs "nothere.twig") ]));
   let bad = add "bad" (rdir ()) M.ScSrcBad in
   let missing = [| "nothere.twig"; "a/missing.twig" |] in
   let ref_to from key = bs (mkref r ~rel:(rint r 4 < rel_bias) from (usename key)) in
@@ -175,7 +183,7 @@ let gen_workload r ~id ~tier =
     | 0 | 1 | 2 -> M.ScItFlat (flat_leaf ())
     | 3 | 4 | 5 | 6 | 7 -> M.ScItInclude (ref_to from (pickd pool).key)
     | 8 | 9 ->
-        let lib = pickd (of_kind "lib") in
+        let lib = if rint r 8 = 0 then pickd (of_kind "badlib") else pickd (of_kind "lib") in
         if rbool r then M.ScItMacro (rbool r, ref_to from lib.key, bs "m1", bs (pick r [| "x"; "mk" |]))
         else M.ScItMacro (rbool r, ref_to from lib.key, bs "m2", bs "u")
     | 10 -> if rint r 6 = 0 then M.ScItInclude (ref_to from (if rbool r then bad else pick r missing)) else M.ScItFlat (flat_leaf ())
@@ -294,16 +302,20 @@ let gen_workload r ~id ~tier =
   let phases =
     if not will_rewrite then [] else begin
       let cur_w = ref w in
+      let removed = Hashtbl.create 4 in
       List.init (1 + rint r 2) (fun k ->
         let k = k + 1 in
-        let chosen = List.filter (fun _ -> rbool r) rewritable in
-        let chosen = if chosen = [] then [ List.hd rewritable ] else chosen in
+        (* a file that was removed stays removed *)
+        let alive = List.filter (fun (d, _, _) -> not (Hashtbl.mem removed d.key)) rewritable in
+        let chosen = List.filter (fun _ -> rbool r) alive in
+        let chosen = if chosen = [] then (match alive with x :: _ -> [ x ] | [] -> []) else chosen in
         let rws = List.map (fun (d, li, di) ->
-            (li, di, d.key, mk [ M.ScItFlat (M.ScFText (bs (Printf.sprintf " v%d-of-%s " k d.key))); M.ScItFlat (flat_leaf ()) ])) chosen in
+            (li, di, d.key, (if rint r 5 = 0 then (Hashtbl.replace removed d.key (); None)
+                             else Some (mk [ M.ScItFlat (M.ScFText (bs (Printf.sprintf " v%d-of-%s " k d.key))); M.ScItFlat (flat_leaf ()) ])))) chosen in
         let w' = rewrite_world !cur_w rws (10 * k) in
         cur_w := w';
         let pthreads = List.init (6 + rint r 11) (fun t -> List.init (3 + rint r 8) (fun c ->
-            if rint r 4 = 0 then (let (d, _, _) = List.nth chosen (rint r (List.length chosen)) in
+            if rint r 4 = 0 && chosen <> [] then (let (d, _, _) = List.nth chosen (rint r (List.length chosen)) in
                                   if rbool r then M.ScCRender (rbool r, bs (usename d.key), vars t c) else M.ScCLoad (bs (usename d.key)))
             else gen_call ~w:w' (100 * k + t) c)) in
         { rewrites = rws; world = w'; pthreads })
@@ -361,8 +373,10 @@ let fixed_reload r ~id ~tier ~mode =
   let threads0 = List.init 6 (fun t -> List.init 6 (fun c -> M.ScCRender (c mod 2 = 0, bs (List.nth names ((t + c) mod 6)), mkvar t c))) in
   let mkphase k prev_w =
     (* every second phase leaves the part alone, so that a reloaded template meets a cached include and the reverse *)
-    let rws = List.map (fun n -> (0, 0, n, src k n)) (List.filteri (fun i _ -> (i + k) mod 3 <> 0) names)
-              @ (if k mod 2 = 1 then [ (0, 0, "pg/part.twig", part k) ] else []) in
+    let rws = List.map (fun n -> (0, 0, n, Some (src k n))) (List.filteri (fun i _ -> (i + k) mod 3 <> 0) names)
+              @ (if k mod 2 = 1 then [ (0, 0, "pg/part.twig", Some (part k)) ] else [])
+              (* the last phase: some files are gone; every goroutine that asks for them finds that out at the same time *)
+              @ (if k = 3 then List.map (fun n -> (0, 0, n, None)) (List.filteri (fun i _ -> i mod 3 = 0) names) else []) in
     let w' = rewrite_world prev_w rws (10 * k) in
     let hot = List.nth names (k mod 6) and hot2 = List.nth names ((k + 1) mod 6) in
     let pthreads = List.init 16 (fun t -> List.init 6 (fun c ->
@@ -373,6 +387,25 @@ let fixed_reload r ~id ~tier ~mode =
   let (p2, w2) = mkphase 2 w1 in
   let (p3, _) = mkphase 3 w2 in
   finish ~phases:[ p1; p2; p3 ] r ~id ~tier ~debug:false ~has_rel:true w threads0
+
+(* imports of a library that fails when it is rendered for its macros, next to renders of healthy templates that
+   print a value only their own call knows: a render context handed back twice on the failure path would be shared
+   by two later calls *)
+let fixed_failing_import r ~id ~tier =
+  let lib = M.ScSrcTpl { M.tp_extends = None; tp_items = [ txt "top"; M.ScItInclude (bs "gone.twig") ];
+                         tp_macros = [ (bs "m1", [ M.ScFText (bs "<"); M.ScFVar (bs "p"); M.ScFText (bs ">") ]) ] } in
+  let good = M.ScSrcTpl { M.tp_extends = None; tp_items = []; tp_macros = [ (bs "m1", [ M.ScFText (bs "("); M.ScFVar (bs "p"); M.ScFText (bs ")") ]) ] } in
+  let page k = tpl [ txt (Printf.sprintf "page%d[" k); M.ScItFlat (M.ScFVar (bs "mk")); M.ScItInclude (bs "part.twig"); M.ScItMacro (k mod 2 = 0, bs "good.twig", bs "m1", bs "mk");
+                     M.ScItFlat (M.ScFVar (bs "mk")); txt "]" ] in
+  let files = [ (bs "lib.twig", file lib); (bs "good.twig", file good); (bs "part.twig", file (tpl [ txt "<part "; M.ScItFlat (M.ScFVar (bs "mk")); txt ">" ]));
+                (bs "imp.twig", file (tpl [ txt "imp["; M.ScItMacro (false, bs "lib.twig", bs "m1", bs "mk"); txt "]" ]));
+                (bs "frm.twig", file (tpl [ txt "frm["; M.ScItMacro (true, bs "lib.twig", bs "m1", bs "mk"); txt "]" ])) ]
+              @ List.init 4 (fun k -> (bs (Printf.sprintf "page%d.twig" k), file (page k))) in
+  let w = world [ { M.ld_fs = false; ld_dirs = [ files ] } ] in
+  let threads = List.init 16 (fun t -> List.init 24 (fun c ->
+      let n = if c mod 4 = 1 then (if (t + c) mod 2 = 0 then "imp.twig" else "frm.twig") else Printf.sprintf "page%d.twig" ((t + c) mod 4) in
+      M.ScCRender (c mod 2 = 0, bs n, mkvar t c))) in
+  finish r ~id ~tier ~debug:false ~has_rel:false w threads
 
 (* cold FileSystemLoader with two search paths, every goroutine asking for other names first (4b22ec0) *)
 let fixed_memo r ~id ~tier ~auto =
@@ -454,7 +487,8 @@ let run ~seed ~tier oc =
                 (fun id -> fixed_parse r ~id ~tier); (fun id -> fixed_intern r ~id ~tier);
                 (fun id -> fixed_rich r ~id ~tier ~mode:0); (fun id -> fixed_rich r ~id ~tier ~mode:(1 + rint r 3));
                 (fun id -> fixed_nameless r ~id ~tier ~fs:true); (fun id -> fixed_nameless r ~id ~tier ~fs:false);
-                (fun id -> fixed_reload r ~id ~tier ~mode:0); (fun id -> fixed_reload r ~id ~tier ~mode:1) ] in
+                (fun id -> fixed_reload r ~id ~tier ~mode:0); (fun id -> fixed_reload r ~id ~tier ~mode:1);
+                (fun id -> fixed_failing_import r ~id ~tier) ] in
   List.iteri (fun i f -> emit oc (f (i + 1))) fixed;
   let n = if tier = "thorough" then 240 else 24 in
   let nf = List.length fixed in
